@@ -33,8 +33,26 @@ type c17DB struct {
 	grave model.Graveyard
 }
 
+// c17CaseVariant spells a database name in another letter case - one that
+// names the same database: the same lower-case form (for "maſs" the upper-case
+// form MASS is another database's name, so it is not used).
+func c17CaseVariant(r *core.Rand, nm string) string {
+	rs := []rune(nm)
+	title := strings.ToUpper(string(rs[:1])) + strings.ToLower(string(rs[1:]))
+	cands := []string{strings.ToUpper(nm), title}
+	if r.Bool() {
+		cands[0], cands[1] = cands[1], cands[0]
+	}
+	for _, v := range cands {
+		if strings.ToLower(v) == strings.ToLower(nm) {
+			return v
+		}
+	}
+	return nm
+}
+
 func checkC17(c *core.Ctx) []core.Floor {
-	c.Rule = "scripts of 15-60 steps over 2-4 databases (names of letters, digits and underscores, also with a leading underscore; one script in 48 opens by creating 100-1030 further databases and lists them before and after a restart) in one session per process lifetime, REAL 100 ms flush timer: CREATE DATABASE (new / existing / other letter case), USE (another / the current one / a missing one / other letter case), SHOW DATABASES, DDL and DML as SQL text through Session.ExecQuery, pauses of 0 / 130 / 350 ms, and restarts (clean close, os.Exit without close, SIGKILL; abrupt ones after a pause of > 2 ticks) after which a new process runs InitStorage and continues the script. Oracle: model of databases; the current database changes only on a successful USE; after every successful USE every table of the selected database is read and compared; at every restart boundary the data directory (process gone, hence quiescent) is copied and a separate process recovers the copy and reads every table of every database; SHOW DATABASES must equal the created names (lower-cased set). Distinct = script; non-trivial = the script re-selected the current database or switched databases with unflushed work, then paused >= 1 tick."
+	c.Rule = "scripts of 15-60 steps over 2-4 databases (names of letters, digits and underscores, also with a leading underscore, with letters outside ASCII, and pairs of names that differ only by a long s / final sigma; one script in 48 opens by creating 100-1030 further databases and lists them before and after a restart) in one session per process lifetime, REAL 100 ms flush timer: CREATE DATABASE (new / existing / other letter case), USE (another / the current one / a missing one / other letter case), SHOW DATABASES, DDL and DML as SQL text through Session.ExecQuery, pauses of 0 / 130 / 350 ms, and restarts (clean close, os.Exit without close, SIGKILL; abrupt ones after a pause of > 2 ticks) after which a new process runs InitStorage and continues the script. Oracle: model of databases; the current database changes only on a successful USE; after every successful USE every table of the selected database is read and compared; at every restart boundary the data directory (process gone, hence quiescent) is copied and a separate process recovers the copy and reads every table of every database; SHOW DATABASES must equal the created names (lower-cased set). Distinct = script; non-trivial = the script re-selected the current database or switched databases with unflushed work, then paused >= 1 tick."
 	c.Assume = []string{"database names are compared case-insensitively (directories are lower-cased)", "abrupt restarts follow a pause of more than two ticks and a look at the cache (no dirty page left), so that a kill never lands inside a page flush (that situation is C04's)"}
 	drv := mustDriver(c, false)
 	n := 96
@@ -52,7 +70,11 @@ func runC17(c *core.Ctx, drv string, idx int) {
 	dir := c.CaseDir("c17")
 	defer removeAll(dir)
 	// (names that begin with an underscore or contain digits are identifiers like any other)
-	names := [][]string{{"alpha", "Beta", "gamma", "DELTA"}, {"_staging", "db_2", "Beta", "x9"}, {"alpha", "_s", "B_", "_9"}}[r.Intn(3)][:r.Range(2, 4)]
+	names := [][]string{{"alpha", "Beta", "gamma", "DELTA"}, {"_staging", "db_2", "Beta", "x9"}, {"alpha", "_s", "B_", "_9"},
+		// letters outside ASCII, with upper / lower case forms; two names that a
+		// Unicode case FOLDING takes for the same although their lower-case
+		// forms (which name the directories) differ: the long s and the final sigma
+		{"Übung", "ärger", "Ωmega", "x9"}, {"mass", "maſs", "Übung", "d2"}, {"ΟΔΟΣ", "οδος", "οδοσ", "q"}}[r.Intn(6)][:r.Range(2, 4)]
 	// ---- generate the script against the model ----
 	dbs := map[string]*c17DB{}
 	cur := ""
@@ -139,10 +161,7 @@ func runC17(c *core.Ctx, drv string, idx int) {
 		case x < 2:
 			nm := names[r.Intn(len(names))]
 			if _, ok := dbs[strings.ToLower(nm)]; ok && r.Bool() {
-				nm = strings.ToUpper(nm[:1]) + strings.ToLower(nm[1:]) + ""
-				if r.Bool() {
-					nm = strings.ToUpper(nm)
-				}
+				nm = c17CaseVariant(r, nm)
 			}
 			steps = append(steps, c17Step{kind: "create_db", name: nm})
 			if _, ok := dbs[strings.ToLower(nm)]; !ok {
@@ -167,7 +186,7 @@ func runC17(c *core.Ctx, drv string, idx int) {
 			case y < 5 && cur != "":
 				st.name, st.useCls = cur, "same"
 			case y < 6:
-				st.name, st.useCls = strings.ToUpper(existing[r.Intn(len(existing))]), "othercase"
+				st.name, st.useCls = c17CaseVariant(r, existing[r.Intn(len(existing))]), "othercase"
 			default:
 				st.name, st.useCls = existing[r.Intn(len(existing))], "other"
 			}
